@@ -141,7 +141,7 @@ func init() {
 			}
 			return false
 		},
-		Rule:      "seeded command sequences with TTLs from {0, 1-5 s, large relative, 30 days -1/0/+1, absolute future, absolute now/past} incl. touch/gat/append/prepend, clock steps (1 s .. 31 days) and L1 evictions x orchestrator (main and batch port, with/without locking) x L1 handler {direct, chunked, batched} x L2 handler {direct, batched} x both GETE expiry encodings; after every command the deadline recorded by each simulated backend for every entry (chunked: metadata, every chunk, and the expiry inside the metadata) is compared with the reference map; non-trivial = some command carries a non-zero TTL",
+		Rule:      "seeded command sequences with TTLs from {0, 1-5 s, large relative, 30 days -1/0/+1, absolute near future, absolute around and far beyond 30 days ahead, absolute now/past} incl. touch/gat/append/prepend, clock steps (1 s .. 31 days) and L1 evictions x orchestrator (main and batch port, with/without locking) x L1 handler {direct, chunked, batched} x L2 handler {direct, batched} x both GETE expiry encodings; after every command the deadline recorded by each simulated backend for every entry (chunked: metadata, every chunk, and the expiry inside the metadata) is compared with the reference map; non-trivial = some command carries a non-zero TTL",
 		Real:      append(append([]string{}, realFullStack...), "handlers/memcached/chunked", "handlers/memcached/batched (pool, batcher, reader, monitor)"),
 		Stub:      stubFullStack,
 		RunsQuick: 5000, RunsThorough: 120000,
